@@ -6,6 +6,7 @@ import Glb.Driver.Filter
 import Glb.Driver.Strutil
 import Glb.Driver.Fsutil
 import Glb.Driver.Config
+import Glb.Driver.Text
 
 open Glb.Driver
 
@@ -17,4 +18,5 @@ def main (args : List String) : IO UInt32 := do
   | ["strutil"] => loop stdin stdout () Strutil.step; return 0
   | ["fsutil"] => loop stdin stdout () Fsutil.step; return 0
   | ["argv"] => loop stdin stdout ({} : Config.ArgvSt) Config.argvStep; return 0
+  | ["text"] => loop stdin stdout () Text.step; return 0
   | _ => IO.eprintln "usage: driver <stream>"; return 2
